@@ -1199,6 +1199,23 @@ func TestVerifC11(t *testing.T) {
 		}
 		inputs = append(inputs, vinput{id: fmt.Sprintf("dots%d", i), data: []byte(strings.Join(ws, ""))})
 	}
+	// list markers in upper and mixed case at line starts ("II.", "IV:", "A.", "Iii.")
+	for i, d := range vnamed("License/MIT/a.txt", "License/BSD-3-Clause/a.txt", "License/NPL-1.1/license.txt", "License/Zlib/license.txt") {
+		mk := []string{"II.", "IV:", "A.", "III.", "iv.", "Vi.", "B.", "XI.", "ii."}
+		k := 0
+		prevHyphen := false
+		t := vmapLines(d.data, func(li int, l string) string {
+			f := strings.Fields(l)
+			ph := prevHyphen
+			prevHyphen = strings.HasSuffix(strings.TrimRight(l, " \t\r"), "-")
+			if !ph && len(f) > 0 && len(f[0]) >= 3 && visAlpha(strings.ToLower(f[0])) && li%3 == 0 && !visNotice(l) {
+				k++
+				return mk[k%len(mk)] + " " + l
+			}
+			return l
+		})
+		inputs = append(inputs, vinput{id: fmt.Sprintf("ucmark%d", i), data: t})
+	}
 	for i, d := range vnamed("Header/Apache-2.0/header.txt", "License/Apache-2.0/pristine.txt", "License/GPL-2.0/a.txt") {
 		t := strings.ReplaceAll(strings.ReplaceAll(string(d.data), "2.0", "2.0.."), "Version 2,", "Version 2..,")
 		inputs = append(inputs, vinput{id: fmt.Sprintf("vdots%d", i), data: []byte(t)})
